@@ -25,6 +25,11 @@ open Dashu.Model.Float
 
 def bitLen (n : Nat) : Nat := if n = 0 then 0 else n.log2 + 1
 
+/-- for a base in `{0, 1, −1}` the power depends only on sign and parity of the exponent: the small exponent with the
+    same sign and parity (`|k| ≥ 4`; `Props/C11Powi.unit_base_zpow_reduce`) — used by the driver to decide `powi` of
+    such a base for exponents far beyond what an exact power could be computed for (`2^64`, …) -/
+def unitExp (k : Int) : Int := (if k < 0 then -1 else 1) * ((k.natAbs % 2 + 2 : Nat) : Int)
+
 /-- the bits of `n` below its top bit, most significant first -/
 def lowBits (n : Nat) : List Bool :=
   ((List.range (bitLen n - 1)).reverse).map fun i => n.testBit i
